@@ -277,6 +277,10 @@ def ob_pipeline(src, tgt, keys, variant, ctx):
 
     sp = Spec(ctx, keys, variant, zero_start=src in ("bms", "o2j"))
     sp.src = src
+    if src == "o2j" and not isinstance(sp.L[0], SymNum):  # concrete runs: an .ojn stores float32 tempos; they are what the file denotes
+        import struct
+
+        sp.L = [60000 / struct.unpack("<f", struct.pack("<f", 60000 / x))[0] for x in sp.L]
     a = SRC[src](ctx, sp)
     cv = getattr(CV, CONV[(src, tgt)])
     shift = 1 if CONV[(src, tgt)] == "O2JToBMS" else 0
